@@ -387,9 +387,21 @@ def check_orbit(lst, st, ev=fast_state, alphabet='full', sub_cache=None):
                 'runs all concluded success' % _fmt(o), case(),
                 {'part': 'aggregation',
                  'clause': 'success_needs_green_branch', 'cause': cause})
-        if not orc['strict']:
-            st.c['stat_successful_beyond_per_branch_reading'] += \
-                sum(verdicts)
+        if not orc['strict'] and orc['may']:
+            # Per-branch reading (DESIGN.md 9.6, seed C17-b): "on at least
+            # one branch ... every considered workflow concluded with
+            # success" is read as: the runs OF THAT BRANCH.  The lenient
+            # reading (best run of a workflow taken from another branch)
+            # lets a commit pass although no branch is green; since repair
+            # R7 the code implements the per-branch reading, which is the
+            # one its own comment states, so it is enforced.
+            st.c['successful_beyond_per_branch_reading'] += sum(verdicts)
+            st.violation(
+                'SUCCESSFUL for %s although no head branch has all of its '
+                'own workflows green (a green run was borrowed from another '
+                'branch)' % _fmt(o), case(),
+                {'part': 'aggregation',
+                 'clause': 'success_needs_green_branch_per_branch'})
     if orc['robust'] and not all(verdicts):
         st.c['stat_not_successful_though_green_in_every_reading'] += \
             len(verdicts) - sum(verdicts)
